@@ -1642,29 +1642,22 @@ int vnaproperty_vset(vnaproperty_t **rootptr, const char *format, va_list ap)
 	errno = EINVAL;
 	goto out;
     }
-    if ((anchor = descend(&parser, rootptr, /*set*/true)) == NULL) {
-	return -1;
-    }
 
     /*
-     * Get the value to assign.
+     * Get the value to assign.  Allocate it before touching the tree so
+     * that running out of memory here leaves the tree as it was.
      *   foo=text	set foo to a scalar with given text
      *   foo#		set foo to null
      */
-    switch (scanner->scn_token) {
-    case T_ASSIGN:
+    if (scanner->scn_token == T_ASSIGN) {
 	value = scalar_alloc(scanner->scn_position);
 	if (value == NULL) {
 	    goto out;
 	}
-	break;
-
-    case T_HASH:
-	break;
-
-    default:
-	errno = EINVAL;
-	goto out;
+    }
+    if ((anchor = descend(&parser, rootptr, /*set*/true)) == NULL) {
+	vnaproperty_free(value);
+	return -1;
     }
 
     /*
